@@ -229,3 +229,37 @@ def conformance():
     finally:
         core.CUR = None
     return bad
+
+
+def _basic_index(x, index):
+    """numpy basic indexing with a tuple of slices (one per dimension) with step None or >= 1: each dimension keeps
+    len(range(*slice.indices(size))) elements, element i being start' + step*i (start' the clamped start); other index
+    forms are outside the model"""
+    from contracts.specs import spec_range_len
+
+    if not isinstance(index, tuple):
+        index = (index,)
+    if len(index) != len(x.shape) or not all(isinstance(s, slice) for s in index):
+        raise Unsupported("indexing form outside the model")
+    shape, maps = [], []
+    for s, size in zip(index, x.shape):
+        if s.start is None and s.stop is None and s.step is None:
+            shape.append(size)
+            maps.append(None)
+        else:
+            from contracts.specs import spec_slice_indices
+
+            p = core.cur()
+            if s.step is not None and not p.entails(core._lift(s.step >= 1)):
+                raise Unsupported("slice with a step that is not known to be >= 1")
+            a, b, c = spec_slice_indices(s.start, s.stop, s.step, size)  # CPython / numpy clamping rule
+            shape.append(spec_range_len(a, b, c))
+            maps.append((a, c))
+
+    def get(idx):
+        return x.get(tuple(i if m is None else m[0] + m[1] * i for i, m in zip(idx, maps)))
+
+    return SArr(tuple(shape), get, x.dtype)
+
+
+SArr.__sym_getitem__ = _basic_index
